@@ -1,7 +1,5 @@
 (* drv_c12.ml — front end of the printer model (coq/Fix/Printer.v).
    The AST arrives in the prefix form written by checks/c12_gen.py:ser_module.
-     c12_lexv <value> <hex of what follows> -> "wf=<b> follow=<b> lex=<hex bytes of the value> ok=<b>"
-                       (ok: lex (ppb_value v ++ rest) = pp_value v ++ lex rest, executed)
      c12_pp <ast>   -> hex of ppb_module a          (the text asn1c -E must print)
      c12_rt <ast>   -> "wf=<b> lex=<b> parse=<b>"   (wf_module a, lex (ppb a) = pp a,
                                                        parse (pp a) prints back to pp a / ppb a)
